@@ -269,7 +269,7 @@ class Term(Node):
         return self.get_sql(DEFAULT_SQL_CONTEXT)
 
     def __hash__(self) -> int:
-        ctx = DEFAULT_SQL_CONTEXT.copy(with_alias=True)
+        ctx = DEFAULT_SQL_CONTEXT.copy(with_alias=True, with_namespace=True)
         return hash(self.get_sql(ctx))
 
     def get_sql(self, ctx: SqlContext) -> str:
